@@ -5,14 +5,14 @@
 EXTENDS Truncate, TLC
 
 CONSTANTS Variant,      \* "impl" | "ge" (l >= size cuts) | "noopt" (OPT length not subtracted) | "tcanswer" (TC only when Answer is cut)
-          MaxRecs, MaxSize
+          MaxAn, MaxNs, MaxAr, MaxSize
 
 VARIABLES m, size
 
 RecU == { [name |-> n, full |-> f, short |-> s] : n \in {1, 2}, f \in {2, 3}, s \in {1} }
-SecU == UNION { [1..k -> RecU] : k \in 0..MaxRecs }
+SecU(mx) == UNION { [1..k -> RecU] : k \in 0..mx }
 MsgU == { [hq |-> h, an |-> a, ns |-> b, ar |-> c, opt |-> o, tc |-> t] :
-            h \in {2}, a \in SecU, b \in SecU, c \in SecU, o \in {0, 1}, t \in BOOLEAN }
+            h \in {2}, a \in SecU(MaxAn), b \in SecU(MaxNs), c \in SecU(MaxAr), o \in {0, 1}, t \in BOOLEAN }
 
 Init == m \in MsgU /\ size \in 0..MaxSize
 Next == UNCHANGED <<m, size>>
